@@ -250,6 +250,13 @@ impl<T: RealNumber> BBDTree<T> {
         }
 
         let split_cutoff = node.center[split_index];
+        // when the extremes are neighbouring floating-point values the centre rounds down to
+        // the lower bound and `< split_cutoff` would leave the lower child empty
+        let split_cutoff = if split_cutoff <= lower_bound[split_index] {
+            upper_bound[split_index]
+        } else {
+            split_cutoff
+        };
         let mut i1 = begin;
         let mut i2 = end - 1;
         let mut size = 0;
